@@ -615,6 +615,11 @@ func (broker *Broker) scan() []sts.Hashed {
 			// Add any that might have failed the hash calculation last time
 			wrapped = append(wrapped, &hashFile{File: cached})
 		case cached.IsDone() && broker.canDelete(cached):
+			if changed, _ := store.Sync(cached); changed != nil {
+				// Not the file that was confirmed (e.g. a new one by the
+				// same name); it gets sent again and must not be deleted
+				break
+			}
 			err = broker.Conf.Store.Remove(cached)
 			if err != nil {
 				broker.error("Failed to delete aged file:", cached.GetName())
@@ -1268,6 +1273,13 @@ func (broker *Broker) startValidate(wg *sync.WaitGroup) {
 func (broker *Broker) finish(file sts.Polled) {
 	switch {
 	case file.Waiting() || file.Received():
+		if cached := broker.Conf.Cache.Get(file.GetName()); cached != nil &&
+			cached.GetHash() != file.GetHash() {
+			// The file changed after this version was sent and is (to be)
+			// sent again, so this answer doesn't apply to what we have now
+			log.Debug("Ignoring confirmation of replaced file:", file.GetName())
+			return
+		}
 		log.Debug("Validated:", file.GetName())
 		// Make marking done and file removal a single transaction so that we
 		// keep the cache in sync with the file system.  Without it, it's
@@ -1277,6 +1289,10 @@ func (broker *Broker) finish(file sts.Polled) {
 		// picked up again to be sent redundantly.
 		broker.Conf.Cache.Done(file.GetName(), func(cached sts.Cached) {
 			if broker.canDelete(cached) {
+				if changed, _ := broker.Conf.Store.Sync(cached); changed != nil {
+					// The file on disk is not the one that was confirmed
+					return
+				}
 				if err := broker.Conf.Store.Remove(cached); err != nil {
 					broker.error("Failed to delete:", cached.GetName(), err.Error())
 					return
